@@ -12,7 +12,7 @@ import sys
 from .. import core
 
 PROBES = ["plss_nodir", "plss_full", "tract_build", "trs_attrs", "trs_dict", "find_twprge", "plss_qq", "trslist",
-          "plss_ocrlike", "tract_bareqq", "held_parse", "cfg_parse", "held_tract"]
+          "plss_ocrlike", "tract_bareqq", "held_parse", "cfg_parse", "held_tract", "tract_deep"]
 MCS = [("n", "w"), ("n", "e"), ("s", "w"), ("s", "e")]
 
 
@@ -117,7 +117,7 @@ def run(ctx):
             elif nm == "use_cache":
                 ops.append(op(nm, ctx.rng.choice(["on", "off"])))
             elif nm == "parse_other":
-                ops.append(op(nm, ctx.rng.choice(["o1", "o2", "o3", "o4"])))
+                ops.append(op(nm, ctx.rng.choice(["o1", "o2", "o3", "o4", "o5"])))
             elif nm == "make_trs":
                 ops.append(op(nm, ctx.rng.choice(["k1", "k2", "kerr"])))
             elif nm == "mutate":
@@ -136,7 +136,7 @@ def run(ctx):
     ctx.notes["fresh_interpreter_references"] = len(PROBES) * len(MCS)
     ctx.rule = ("histories = %d%% seeded sample of all behaviours of spec/GlobalState.tla with 3 actions (model checked up to %d) ending in a probe "
                 "(MasterConfig set / restored, cache cleared / disabled / pre-warmed, other descriptions parsed, returned dicts "
-                "and lists mutated through 6 conversion paths, a description created with wait_to_parse and parsed later, previews with commit=False on kept objects) + random histories of 7..15 actions; reference = each of 13 probes "
+                "and lists mutated through 6 conversion paths, a description created with wait_to_parse and parsed later, previews with commit=False on kept objects) + random histories of 7..15 actions; reference = each of 14 probes "
                 "x 4 MasterConfig values in its own fresh interpreter; non-trivial = distinct history" % (int(keep * 100), maxops))
     ctx.assumptions += ["probe outcome = full snapshot of the parsed objects / returned values (28-bit hash)",
                         "worker processes reset MasterConfig and the TRS cache at the beginning and end of every history"]
